@@ -1,5 +1,6 @@
 import LicenseExpr.Lemmas.Order
 import LicenseExpr.Model.Api
+import LicenseExpr.Lemmas.NormKey
 /-!
 # C13 — license symbols behave as values identified by key and exception flag
 -/
@@ -76,5 +77,44 @@ theorem C13_normKey_complete (c : Cls) (raw : Str) (h0 : raw ≠ []) (h1 : strip
     normKey c raw = some (collapse c (stripStr c raw)) := by
   unfold normKey
   simp_all
+
+/-- **C13 (normalisation is idempotent)**: the key of a symbol is accepted again unchanged — creating a
+    symbol from an existing symbol's key yields the same key. Two facts about the character classes
+    are assumed, both true of Python: U+0020 is a blank (`str.isspace`) and is allowed in keys (`\s`
+    in the key pattern). -/
+theorem C13_normKey_idem (c : Cls) (hsp : c.isSpace SPACE = true) (hkc : c.isKeyChar SPACE = true)
+    (raw k : Str) (h : normKey c raw = some k) : normKey c k = some k := by
+  obtain ⟨_, h1, h2, hk, h4⟩ := C13_normKey_sound c raw k h
+  have hwords := splitWs_words c (stripStr c raw)
+  have hne : splitWs c (stripStr c raw) ≠ [] := by
+    apply splitWs_ne
+    -- the stripped key starts with a non-blank character
+    unfold stripStr at h1 ⊢
+    cases hd : ((raw.dropWhile c.isSpace).reverse.dropWhile c.isSpace) with
+    | nil => rw [hd] at h1; simp at h1
+    | cons x xs =>
+      have := List.head_dropWhile_not c.isSpace (l := (raw.dropWhile c.isSpace).reverse) (by rw [hd]; simp)
+      simp only [hd, List.head_cons] at this
+      exact ⟨x, by simp, this⟩
+  have hstrip : stripStr c k = k := by rw [hk]; exact stripStr_join c _ hwords
+  have hcoll : collapse c k = k := by rw [hk]; exact collapse_collapse c hsp _
+  have hkne : k ≠ [] := by rw [hk]; exact join_ne c _ hne hwords
+  have hall : k.all c.isKeyChar = true := by
+    rw [hk]
+    apply join_all c.isKeyChar hkc
+    intro w hw
+    rw [List.all_eq_true]
+    intro x hx
+    rcases splitGo_sub c _ [] w hw x hx with hm | hm
+    · simp at hm
+    · exact (List.all_eq_true.mp h2) x hm
+  have := C13_normKey_complete c k hkne (by rw [hstrip]; exact hkne) (by rw [hstrip]; exact hall)
+    (by rw [hstrip, hcoll]; exact h4)
+  rw [this, hstrip, hcoll]
+
+/-- non-vacuity: with blanks = {U+0020, U+0009} and every character allowed in keys, `" GPL \t 2.0 "`
+    normalises to `"GPL 2.0"`, which normalises to itself -/
+example : normKey ⟨fun x => x == 32 || x == 9, fun _ => true, fun x => [x]⟩ [32, 71, 80, 76, 32, 9, 32, 50, 46, 48, 32]
+    = some [71, 80, 76, 32, 50, 46, 48] := by decide
 
 end LE
